@@ -160,7 +160,12 @@ def gen_one(world, tier, rng, faults=True):
         pending = []
       steps.append({'op': 'roundtrip'})
     else:
-      if pending:
+      if (pending and rng.random() < 0.25
+          and not any(isinstance(p_, str) and p_.startswith('config:') for p_ in pending[:3])):
+        # the batch is handed to parse() with a non-string entry at its end: the
+        # whole batch is refused (and handed over again, corrected, later)
+        steps.append({'op': 'parse', 'ds': pending[:rng.randint(1, 3)], 'bad_batch': True})
+      elif pending:
         steps.append({'op': 'parse', 'ds': pending[:rng.randint(1, 3)]})
         pending = pending[len(steps[-1]['ds']):]
   if pending:
@@ -476,6 +481,20 @@ def run(case):
       continue
     fs = fss.setdefault(st.get('f', 0), FS())
     flag, model, queue = fs.flag, fs.model, fs.queue
+    if st['op'] == 'parse' and st.get('bad_batch'):
+      strs = [d for d in st['ds'] if isinstance(d, str)]
+      if not strs:
+        continue
+      try:
+        flag.parse(strs + [None])
+      except Exception:  # pylint: disable=broad-except
+        bump(faults, 'rejected_op')
+        bump(probes, 'refused_parse_batches')
+        continue      # nothing of the batch counts; the next read shows it
+      viols.append(V('invalid-directive-accepted',
+                     f'step #{idx}: parse({strs + [None]}) did not raise',
+                     directive='non-string'))
+      return res
     if st['op'] == 'parse':
       ds = []
       for d in st['ds']:
